@@ -408,7 +408,19 @@ def install(E):
         """replace slice content by an arbitrary permutation of it that is sorted"""
         n = E.conc(sl.len)
         if n is None:
-            raise Exception("sort of slice with symbolic length")
+            # symbolic length: case split over the possible lengths (bounded by the capacity)
+            B = E.conc(sl.cap)
+            if B is None or B > E.cfg.get("sort_len_bound", 8):
+                B = E.cfg.get("sort_len_bound", 8)
+                E.oblige("bound", z3.ULE(sl.len, bv(B)), oid="sort-len<=%d" % B)
+            g0 = E.guard
+            for k in range(2, B + 1):
+                E.guard = And(g0, sl.len == k)
+                if is_false(E.guard) or not E.feasible(E.guard):
+                    continue
+                sort_contract(E, Slice(sl.base, sl.off, bv(k), sl.cap), less_or_cmp, kind, ins)
+            E.guard = g0
+            return
         if n <= 1:
             return
         old = [E.slice_get(sl, bv(i)) for i in range(n)]
